@@ -5,7 +5,7 @@ from reactivex import operators as ops
 from engine.api import I, harness, cover
 from engine.lib import Injected, make_scheduler, on_completed, on_error, on_next, rec_tuples, same_events
 
-ERRS = [Injected("e0"), Injected("e1"), Injected("e2")]
+ERRS = [Injected("e0"), Injected("e1"), Injected("e2"), Injected("e3")]
 
 
 def mk_sources(sch, a, K, n):
@@ -66,6 +66,9 @@ def _cinst(tier):
                 continue
             out.append({"op": name, "K": K, "n": 1})
         out.append({"op": name, "K": 2, "n": 2})
+        if tier != "quick" and (not name.startswith("op_") or name == "op_concat"):
+            out.append({"op": name, "K": 3, "n": 2})
+            out.append({"op": name, "K": 4, "n": 1})
     return out
 
 
@@ -116,7 +119,7 @@ def h_chain(a, inst):
 # ------------------------------------------------------------------ repeat / retry / start_with / while_do / do_while
 def _rinst(tier):
     return [{"op": o, "n": n} for o in ("repeat", "retry", "repeat_take", "retry_take", "while_do", "do_while", "start_with")
-            for n in (1, 2)]
+            for n in ((1, 2) if tier == "quick" else (1, 2, 3))]
 
 
 @harness(instances=_rinst, g=I(0, 2, n=lambda i: i["n"]), tg=I(0, 2, n=1), term=I(1, 2, n=1), c=I(0, 3), timeout=(90, 900))
@@ -274,7 +277,7 @@ BOUNDS = {"quick": "lists of 1..3 cold sources with 1 element each (and 2 source
                    "1..2 elements, unbounded repeat()/retry() cut by take(c), c in [0,3]; 8 chaining shapes whose first source terminates "
                    "synchronously inside subscribe and whose second source is a Subject emitting 0..2 elements afterwards, "
                    "subscribed on the default scheduler or with ImmediateScheduler (re-entrant chaining)",
-          "thorough": "same with the thorough per-instance budget"}
+          "thorough": "additionally lists of 4 sources with 1 element and 3 sources with 2 elements each, repeat/retry/while_do/do_while/start_with over a source with 3 elements"}
 ASSUMES = ["Tick/Span time stub", "for_in is exercised in the synchronous-first-source harness and in C04",
            "the next source is subscribed in the same tick in which the previous one terminated"]
 MANIFEST = {
